@@ -81,6 +81,20 @@ class Program:
                 f_["crate"] = c
                 self.formats.append(f_)
         self._const_init = {}
+        # `s.parse::<T>()` with a local `impl FromStr for T` is a call of that from_str: resolve it here so that
+        # call-graph walks, inlining and world evaluation all follow it
+        from_strs = {k.split("::<", 1)[1].split(" as std::str::FromStr>::from_str")[0]: k for k in self.bodies if k.endswith(" as std::str::FromStr>::from_str")}
+        if from_strs:
+            for b_ in list(self.bodies.values()):
+                for blk in b_.j.get("blocks", []):
+                    t_ = blk.get("term") or {}
+                    if t_.get("k") == "call" and (t_.get("callee") or "").endswith("str>::parse") and t_.get("targs") and t_["targs"][0] in from_strs:
+                        k_ = from_strs[t_["targs"][0]]
+                        t_["callee"] = t_["callee_full"] = k_
+                        t_["rkey"] = k_
+                        t_["resolved"] = k_.split("::", 1)[1]
+                        t_["local"] = True
+                        t_["rcrate"] = k_.split("::", 1)[0]
         global CURRENT
         CURRENT = self
         PROGRAMS.insert(0, self)
